@@ -16,7 +16,7 @@ NOT_CLAIMED = {}
 TECH = {
  "C01": ("assignment-first generator + reference expectation; oracle over every read path of the returned Args (bounded-exhaustive decision-tree walk for catalogue formats, seeded random for large ones)",
          "held on every generated line: the generator derives the command line from the assignment, so the expected result is known by construction and is computed without calling the parser"),
- "C02": ("exhaustive token-soup enumeration + single-fault mutation of valid lines; oracle on exception class and strict/lenient agreement",
+ "C02": ("exhaustive token-soup enumeration + single-fault mutation of valid lines; oracle on exception class and strict/lenient agreement (results snapshotted at observation time); Command.parse(raw, mode) differential against the parser in the effective mode",
          "exception containment is decided on the complete set of token sequences up to the stated length over an adversarial alphabet; documented errors on lines with exactly one planted fault"),
  "C03": ("reference walk over the configuration tree vs the real resolver, with recording handlers for the nothing-run clause",
          "selection, resolved arguments and error messages compared with an independent walk over generated trees and line shapes"),
@@ -28,31 +28,31 @@ TECH = {
          "bounded-exhaustive operation sequences over a colliding name pool on 6 base stacks"),
  "C07": ("exhaustive enumeration of flag words and short names against validity predicates written from the statement; conversion round-trips",
          "the whole flag space (2^13 x 6, 2^11 x 3) is run; names up to length 4/5 over a small alphabet"),
- "C08": ("exhaustive short strings under a sys.monitoring step budget (logical termination monitor) + quote/unquote inverse over generated token lists + string/argv equivalence through parser and resolver",
+ "C08": ("exhaustive short strings under a sys.monitoring step budget and a process-CPU-time budget (two logical termination monitors) + quote/unquote inverse over generated token lists + string/argv equivalence through parser and resolver",
          "totality and termination on every string up to length 5/7; inverse law on generated token lists with every kind of whitespace separator"),
- "C09": ("io_factory tap + recording handlers and streams; variants of valid lines with switches inserted at every kind of position, control placement after '--'",
+ "C09": ("io_factory tap + recording handlers and streams; variants of valid lines with switches inserted at every kind of position, control placements after '--' (also with a switch as the last token before it); switch sequences on one application object against fresh applications",
          "per-switch clauses judged on I/O settings actually built for the run and on the bytes written"),
- "C10": ("reflection-discovered writing methods x complete truth table (verbosity x flags x quiet x formatter x object kind), bytes observed at a recording stream",
+ "C10": ("reflection-discovered writing methods x complete truth table (verbosity x flags x quiet x formatter x object kind), bytes observed at a recording stream; random histories with unique message ids over separately gated outputs and live sections (a suppressed id never appears, then or later)",
          "exhaustive table; a method added later is picked up by the probing step"),
  "C11": ("markup AST generator with per-character SGR interpreter; exhaustive colour/attribute table through three supply routes; reflection over *_line methods; nested indentation scopes with exceptional exits",
          "four boundary monitors at formatter/stream level"),
- "C12": ("history monitor against a list model; listeners are logging closures; prefix-closed exhaustive enumeration incl. cache-filling queries",
+ "C12": ("history monitor against a list model; listeners are logging closures (plain, stopping, registering, raising, bound methods of unreferenced objects); prefix-closed exhaustive enumeration incl. cache-filling queries",
          "every sequence up to length 4/5 over 20 operations plus random long histories"),
  "C13": ("unique-substring membership oracle over rendered help pages, width bound, and byte comparison of 'help <path>' with '<path> --help' through Application.run",
          "generated configurations with every element named uniquely as a substring"),
  "C14": ("per-column alphabets attribute every rendered character to its column; oracles for width, rectangle, border offsets / column spans, per-column text preservation, table immutability",
          "seeded random tables over length-class profiles that drive the width distribution"),
- "C15": ("terminal emulator (deferred auto-wrap) replaying the recorded byte stream vs a stacked-sections screen model; plain degradation oracle",
+ "C15": ("terminal emulator (deferred auto-wrap) replaying the recorded byte stream vs a stacked-sections screen model, one screen per output in two-output histories with flag words; plain degradation oracle",
          "enumeration of all applicable operation sequences to depth 4/5 at two widths plus random histories"),
  "C16": ("virtual clock installed before clikit is imported; frames = writes between flushes, stamped with virtual time; state model + per-frame clauses; emulator residue check",
          "all operation sequences to length 4/5 on a configuration grid plus random sequences to length 60"),
- "C17": ("reused-vs-fresh application histories; triple renders; creation-order experiments each in a pristine subprocess",
+ "C17": ("reused-vs-fresh application histories (incl. a shared parser object and a command lenient by overridden default); triple renders; creation-order experiments each in a pristine subprocess",
          "all histories of length 2(-3) over an 18-line catalogue, with fresh and reused RawArgs objects"),
- "C18": ("scripted InputStream with read budget (logical termination), recording outputs, dialogue model; PATH isolated so that the line-reading path is taken",
+ "C18": ("scripted InputStream with read budget (logical termination), recording outputs, dialogue model; re-ask histories on one question object against new objects; PATH isolated so that the line-reading path is taken",
          "all answer scripts up to length 2/3 over a 15-entry alphabet x 132 configurations"),
- "C19": ("deterministic token-passing scheduler substituted for threading/time (every write, sleep, event op, start, join is a scheduling point); depth-first schedule enumeration with a pre-emption bound, random schedules, trace replay on the emulator; independent real-thread stress engine",
+ "C19": ("deterministic token-passing scheduler substituted for threading/time (every write, sleep, event op, lock acquire/release, start, join is a scheduling point; 'no thread can run' = deadlock verdict); depth-first schedule enumeration with a pre-emption bound, random schedules, trace replay on the emulator; independent real-thread stress engine",
          "all schedules within the pre-emption bound for each program; verdicts on logical steps, wall-clock only as an inconclusive watchdog"),
- "C20": ("generated failing modules (unique files) rendered at every verbosity; snippet oracle from Python's own tokenize; ignore-filter oracle; highlighter over a corpus of real files",
+ "C20": ("generated failing modules (unique files, odd paths, Latin-1 / wide scripts) and 19 unusual exception objects (solutions, groups, BaseException subclasses) rendered at every verbosity; snippet oracle from Python's own tokenize; ignore-filter oracle; highlighter over a corpus of real files",
          "seeded random modules, messages, recursion depths and I/O capabilities; corpus = repository, tests, 300 stdlib modules"),
 }
 
